@@ -303,6 +303,7 @@ theorem outClosed_mono (s : Hist.St) (op : Op) (hc : s.outClosed = true) : (step
   | peerStanzaReply => simp only [step]; split; exact hc; split; exact hsr s _; simp only [hc, if_true]; exact hsr s _
   | handlerErr => simp only [step]; split; exact hc; split <;> exact hsr s _
   | handlerStreamErr => simp only [step]; split; exact hc; split <;> exact hsr s _
+  | handlerFails k => simp only [step]; split; exact hc; split <;> exact hsr s _
   | peerStreamErr => simp only [step]; split; exact hc; split <;> exact hsr s _
   | peerClose => simp only [step]; split; exact hc; split <;> exact hsr s _
   | peerGarbage => simp only [step]; split; exact hc; split <;> exact hsr s _
@@ -361,6 +362,7 @@ theorem hinv_step (s : Hist.St) (h : HInv s) (op : Op) : HInv (step s op).1 := b
           rw [if_neg hc]; exact tx hc'
   | handlerErr => simp only [step]; split; exact h; split <;> exact hinv_serveReturns s h _ (by decide) (by decide)
   | handlerStreamErr => simp only [step]; split; exact h; split <;> exact hinv_serveReturns s h _ (by decide) (by decide)
+  | handlerFails k => simp only [step]; split; exact h; split <;> exact hinv_serveReturns s h _ (by cases k <;> decide) (by cases k <;> decide)
   | peerStreamErr => simp only [step]; split; exact h; split <;> exact hinv_serveReturns s h _ (by decide) (by decide)
   | peerClose => simp only [step]; split; exact h; split <;> exact hinv_serveReturns s h _ (by decide) (by decide)
   | peerGarbage => simp only [step]; split; exact h; split <;> exact hinv_serveReturns s h _ (by decide) (by decide)
@@ -760,6 +762,124 @@ open WHist in
 theorem C10_dead_encoder (f : Option Nat) (s : WHist.St) (hd : s.encDead = true) (ho : s.outClosed = false) :
     WHist.step f s .tx = (s, .ioErr) := by
   simp [WHist.step, hd, ho]
+
+
+/-! ### round 6: `Serve` returns nil only when the peer closed its stream -/
+
+open Hist in
+/-- once `Serve` has returned its result never changes -/
+theorem Hist.serve_final (s : Hist.St) (op : Op) (h1 : s.serve ≠ .running) (h2 : s.serve ≠ .notStarted) :
+    (step s op).1.serve = s.serve := by
+  have hb : (s.serve == Ret.running) = false := by simpa using h1
+  have hn : (s.serve == Ret.notStarted) = false := by simpa using h2
+  cases op <;> simp [step, hb, hn, h1, closeOut] <;> (try split) <;> simp_all
+
+open Hist in
+theorem Hist.run_serve_final : ∀ (ops : List Op) (s : Hist.St), s.serve ≠ .running → s.serve ≠ .notStarted →
+    (run s ops).1.serve = s.serve := by
+  intro ops
+  induction ops with
+  | nil => intro s _ _; rfl
+  | cons op ops ih =>
+    intro s h1 h2
+    have h := Hist.serve_final s op h1 h2
+    simp only [run]
+    rw [ih _ (h ▸ h1) (h ▸ h2), h]
+
+open Hist in
+/-- one event: a running (or not yet started) `Serve` ends with nil exactly at the peer's
+closing tag read under a context that has not expired; whatever a handler returns — `io.EOF`
+itself, an error wrapping it or `io.ErrUnexpectedEOF`, joined errors, wrapped stream and stanza
+errors — is never taken for that -/
+theorem C10_step_nil_iff (s : Hist.St) (op : Op) (h : s.serve = .running ∨ s.serve = .notStarted) :
+    (step s op).1.serve = .nil_ ↔ (op = .peerClose ∧ s.serve = .running ∧ s.ctxPast = false) := by
+  rcases h with h | h
+  · cases op <;> by_cases hc : s.ctxPast = true <;> by_cases ho : s.outClosed = true <;>
+      simp [step, h, serveReturns, closeOut, hc, ho]
+    all_goals (try (split <;> simp [h]))
+    all_goals (try (rename_i k; cases k <;> simp_all [HErr.ret]))
+  · cases op <;> simp [step, h, serveReturns, closeOut] <;> (try split) <;> simp_all
+
+open Hist in
+theorem Hist.nil_iff_aux : ∀ (ops : List Op) (s : Hist.St), (s.serve = .running ∨ s.serve = .notStarted) →
+    ((run s ops).1.serve = .nil_ ↔
+      ∃ pre post, ops = pre ++ Op.peerClose :: post ∧ (run s pre).1.serve = .running ∧
+        (run s pre).1.ctxPast = false) := by
+  intro ops
+  induction ops with
+  | nil =>
+    intro s h
+    constructor
+    · intro hn; rcases h with h | h <;> simp [run, h] at hn
+    · rintro ⟨pre, post, he, _⟩; simp at he
+  | cons op ops ih =>
+    intro s h
+    simp only [run]
+    by_cases hs : (step s op).1.serve = .running ∨ (step s op).1.serve = .notStarted
+    · rw [ih _ hs]
+      constructor
+      · rintro ⟨pre, post, he, hr, hc⟩
+        exact ⟨op :: pre, post, by simp [he], by simpa [run] using hr, by simpa [run] using hc⟩
+      · rintro ⟨pre, post, he, hr, hc⟩
+        cases pre with
+        | nil =>
+          simp only [List.nil_append, List.cons.injEq] at he
+          have : (step s op).1.serve = .nil_ := (C10_step_nil_iff s op h).mpr ⟨he.1, by simpa [run] using hr, by simpa [run] using hc⟩
+          rcases hs with hs | hs <;> simp [this] at hs
+        | cons a pre =>
+          simp only [List.cons_append, List.cons.injEq] at he
+          obtain ⟨rfl, he⟩ := he
+          exact ⟨pre, post, he, by simpa [run] using hr, by simpa [run] using hc⟩
+    · have h1 : (step s op).1.serve ≠ .running := fun e => hs (Or.inl e)
+      have h2 : (step s op).1.serve ≠ .notStarted := fun e => hs (Or.inr e)
+      rw [Hist.run_serve_final ops _ h1 h2, C10_step_nil_iff s op h]
+      constructor
+      · rintro ⟨rfl, hr, hc⟩
+        exact ⟨[], ops, rfl, by simpa [run] using hr, by simpa [run] using hc⟩
+      · rintro ⟨pre, post, he, hr, hc⟩
+        cases pre with
+        | nil =>
+          simp only [List.nil_append, List.cons.injEq] at he
+          exact ⟨he.1, by simpa [run] using hr, by simpa [run] using hc⟩
+        | cons a pre =>
+          simp only [List.cons_append, List.cons.injEq] at he
+          obtain ⟨rfl, _⟩ := he
+          have : (run (step s op).1 pre).1.serve = (step s op).1.serve := Hist.run_serve_final pre _ h1 h2
+          simp only [run] at hr
+          rw [this] at hr
+          exact absurd hr h1
+
+open Hist in
+/-- **`Serve` returns nil iff the peer closed its stream**: in every history — any interleaving
+of Close, transmit calls, reads, deadlines, peer input and handlers returning any value of the
+alphabet (identical `io.EOF`, wrapped `io.EOF`, wrapped `io.ErrUnexpectedEOF`, joined errors,
+wrapped stream and stanza errors), `Serve` started at the beginning or later — the result of
+`Serve` is nil exactly when the history contains a peer close that `Serve` was still running
+to see (under a context that had not expired) -/
+theorem C10_serve_nil_iff_peer_close (serve : Bool) (ops : List Op) :
+    (run (init serve) ops).1.serve = .nil_ ↔
+      ∃ pre post, ops = pre ++ Op.peerClose :: post ∧ (run (init serve) pre).1.serve = .running ∧
+        (run (init serve) pre).1.ctxPast = false :=
+  Hist.nil_iff_aux ops (init serve) (by cases serve <;> simp [init])
+
+open Hist in
+/-- no handler return value ends `Serve` cleanly, whatever it wraps … -/
+theorem C10_handler_never_ends_cleanly (s : Hist.St) (k : HErr) :
+    (step s (.handlerFails k)).1.serve = .nil_ → s.serve = .nil_ := by
+  intro h
+  by_cases hr : s.serve = .running ∨ s.serve = .notStarted
+  · have := (C10_step_nil_iff s _ hr).mp h
+    simp at this
+  · have h1 : s.serve ≠ .running := fun e => hr (Or.inl e)
+    have h2 : s.serve ≠ .notStarted := fun e => hr (Or.inr e)
+    rw [Hist.serve_final s _ h1 h2] at h
+    exact h
+
+/-- … which is a statement about `==`: classified with `errors.Is(err, io.EOF)` a handler error
+that wraps `io.EOF` (or joins it) would be taken for the peer's close -/
+theorem C10_serve_nil_fails_with_errors_is :
+    Hist.HErr.retIs .wrapEof = .nil_ ∧ Hist.HErr.retIs .joinEof = .nil_ ∧
+    Hist.HErr.ret .wrapEof = .handlerErr ∧ Hist.HErr.ret .joinEof = .handlerErr := by decide
 
 
 /-! ### round 5: transmit calls and the connection's deadlines -/
